@@ -91,6 +91,43 @@ def opNewRule (args : List W) : String :=
     | _, _, _, _, _ => "bad-decode"
   | _ => "bad-arity"
 
+/-- Is the request well formed in the sense of C05 (`URLLowerCase = ToLower(URL)`, and for hostname
+    requests the hostname is a factor of the URL)? -/
+def reqWellFormed (q : Request) : Bool :=
+  q.urlLower == Bytes.toLower q.url && (!q.isHostnameRequest || Bytes.hasSub q.url q.hostname)
+
+/-- `i2.textmatch <text> <listID> <addrs> <prefixes> <reshortcuts> <Q> <psl>`: everything from the rule
+    TEXT — parse with the complete parser model, match with `modelPat`; no Go-supplied table but
+    psl / addr / prefix (and the shortcut of a `/regex/` pattern).
+    spec: mask rules, request in the domain → `specMatchNoShortcut` (modifiers as set membership + the
+    documented mask language, no shortcut test: theorem `c04_full_end_to_end`) for well-formed requests,
+    `specMatchFull` otherwise; `/regex/` rules → `specMatch` over `modelPat`. -/
+def opTextMatch (args : List W) : String :=
+  match args with
+  | [text, id, addrs, prefixes, shortcuts, q, psl] =>
+    match text.bytes?, id.int?, decAddrTable addrs, decPrefixTable prefixes, decShortcutTable shortcuts,
+        decRequest q, decPslTable psl with
+    | some text, some id, some addrs, some prefixes, some shortcuts, some q, some psl =>
+      let ext := withModelPat { mkExt psl addrs [] with parsePrefix := tableLookup prefixes none }
+      let sc := tableLookup shortcuts []
+      let pa := E.parseNetRule (ruleExtProbe ext sc none).px text id
+      let pb := E.parseNetRule (ruleExtProbe ext sc (some {})).px text id
+      if outParse pa != outParse pb || !parseInDomain pa then "ood -" else
+      match pa with
+      | .error .err => "err err"
+      | .error .panic => "PANIC PANIC"
+      | .ok r =>
+        if !matchDecided ext r q then "ood -" else
+        let decided := (modelPat r.pattern (r.isEnabled Facts.OptionMatchCase) (matchTarget r q)).isSome
+        let spec :=
+          if !q.inDomainB || !decided then "-"
+          else if UF.isRegexPattern r.pattern then outBool (specMatch ext r q)
+          else if reqWellFormed q then outBool (specMatchNoShortcut ext r q)
+          else outBool (specMatchFull ext r q)
+        outBool (r.matches ext q) ++ " " ++ spec
+    | _, _, _, _, _, _, _ => "bad-decode"
+  | _ => "bad-arity"
+
 end UF.Ops.I2
 
 namespace UF.Ops
@@ -100,6 +137,7 @@ def dispatchI2 (op : String) (args : List W) : Option String :=
   | "i2.pat" => some (I2.opPat args)
   | "i2.match" => some (I2.opMatch args)
   | "i2.newrule" => some (I2.opNewRule args)
+  | "i2.textmatch" => some (I2.opTextMatch args)
   | _ => none
 
 end UF.Ops
